@@ -417,6 +417,10 @@ func allBuilt(full bool, emit func(b built)) {
 	nf := doubles.NodeFamily()
 	vals["typed_tuple"] = nf["typed_tuple"]
 	vals["typed_renamed"] = nf["typed_renamed"]
+	// payload sizes on the far side of the CBOR length-header widths
+	for _, k := range []string{"string_300", "bytes_70000", "list_30"} {
+		vals[k] = nf[k]
+	}
 	valKeys := make([]string, 0, len(vals))
 	for k := range vals {
 		valKeys = append(valKeys, k)
